@@ -39,6 +39,7 @@ func init() {
 		pool := vsched.Config{PoolPoints: tier == "thorough", AtomicPoints: true}
 		out := []*vexplore.Scenario{
 			{Name: "recv-retain-per-kind", Mode: "enum", Reset: kit.ResetGlobals, Body: recvRetain, NeedCounters: []string{"retained-checked", "buffer-reused"}},
+			{Name: "recv-bytes-retained-per-kind", Mode: "enum", Reset: kit.ResetGlobals, Body: recvBytesRetain, NeedCounters: []string{"bytes-retained-checked"}},
 			{Name: "send-outcomes-per-kind", Mode: "enum", Reset: kit.ResetGlobals, Body: sendOutcomes,
 				NeedCounters: []string{"send-ok", "send-timeout-intact", "send-closed-intact", "send-nopeers-intact", "send-besteffort"}},
 			{Name: "request-released-before-the-reply", Mode: "enum", Reset: kit.ResetGlobals, Body: replyAfterRelease, NeedCounters: []string{"reply-routed-after-release"}},
@@ -318,6 +319,81 @@ func replyAfterRelease() {
 	}
 	kit.Count("reply-routed-after-release")
 	kit.Observe("%s %d %d", k.Name, size, later)
+	kit.Must("Close", func() { _ = x.S.Close() })
+	kit.Quiesce()
+}
+
+// recvBytesRetain: the byte-slice receive API (Socket.Recv / Context.Recv).  The slices returned
+// for bodies of 10, 65535, 65536 and 65537 bytes (around the largest buffer class) are kept while
+// further messages of other sizes arrive, are received and are allocated by the application; they
+// still hold exactly what was sent, and overwriting them disturbs nobody.
+func recvBytesRetain() {
+	var ks []*kinds.Kind
+	for _, k := range kinds.All {
+		if k.CanRecv && !k.Raw {
+			ks = append(ks, k)
+		}
+	}
+	k := ks[kit.ChooseFree(len(ks))]
+	onCtx := k.Ctx && kit.ChooseFree(2) == 1
+	ledger.Install()
+	x := k.Open("c17b", true, false)
+	x.Quiet()
+	_ = x.S.SetOption(mangos.OptionMaxRecvSize, 0)
+	recv := x.S.Recv
+	who := k.Name
+	if onCtx {
+		x.PrepRecvCtxNeedsSocket()
+		c, err := x.S.OpenContext()
+		if err != nil {
+			kit.Failf("setup:ctx:"+k.Name, "OpenContext: %s", kit.ErrName(err))
+		}
+		x.Ctx = c
+		recv = c.Recv
+		who += ".ctx"
+	}
+	type kept struct {
+		b    []byte
+		want string
+	}
+	var keep []kept
+	for i, n := range []int{10, 65536, 65535, 65537, 9000, 60000, 65536} {
+		x.PrepRecv()
+		body := payload(fmt.Sprintf("b%d", i), n)
+		if !x.Feed(body) {
+			kit.Failf("setup:feed:"+k.Name, "cannot feed %s", k.Name)
+		}
+		c := kit.Start("Recv", func() (interface{}, error) { return recv() })
+		kit.Quiesce()
+		if !c.Done() || c.Err != nil {
+			kit.Failf("recv-stuck:"+who, "%s: Recv of %d bytes done=%v %s", who, n, c.Done(), kit.ErrName(c.Err))
+		}
+		b := c.Val.([]byte)
+		if string(b) != body {
+			kit.Failf("recv-body:"+who, "%s: Recv returned %d bytes %q, want %d bytes", who, len(b), clip(b), n)
+		}
+		keep = append(keep, kept{b, body})
+		// the application allocates messages of neighbouring classes meanwhile
+		for _, sz := range []int{9000, 60000} {
+			m := mangos.NewMessage(sz)
+			for j := 0; j < sz; j++ {
+				m.Body = append(m.Body, 0xee)
+			}
+			m.Free()
+		}
+		for j, kp := range keep {
+			if string(kp.b) != kp.want {
+				kit.Failf("recv-bytes-changed:"+who, "%s: the slice returned by Recv for message %d (%d bytes) changed while later messages were received and allocated (now %q...)", who, j, len(kp.want), clip(kp.b))
+			}
+		}
+	}
+	for _, kp := range keep {
+		for j := range kp.b {
+			kp.b[j] = 0x11
+		}
+	}
+	kit.Count("bytes-retained-checked")
+	kit.Observe("%s", who)
 	kit.Must("Close", func() { _ = x.S.Close() })
 	kit.Quiesce()
 }
